@@ -475,9 +475,9 @@ class BehavioralRTLIRTypeCheckVisitorL1( bir.BehavioralRTLIRNodeVisitor ):
     if -1 <= value <= 1:
       return 1
     if value < 0:
-      return math.ceil(math.log2(abs(value)))
+      return (abs(value)-1).bit_length()
     else:
-      return math.ceil(math.log2(value+1))
+      return value.bit_length()
 
 #-------------------------------------------------------------------------
 # Enforce types for all terms whose types are inferred (implicit)
